@@ -5,6 +5,7 @@ import (
 	"fmt"
 	"go/ast"
 	"go/types"
+	"math"
 	"reflect"
 	"sort"
 	"strconv"
@@ -263,9 +264,9 @@ func (d *Dumper) ValueLit(in any, optFns ...ValueLitOptFn) string {
 	case reflect.Bool:
 		return strconv.FormatBool(rv.Bool())
 	case reflect.Float32:
-		return strconv.FormatFloat(rv.Float(), 'f', -1, 32)
+		return floatLit(rv.Float(), 32)
 	case reflect.Float64:
-		return strconv.FormatFloat(rv.Float(), 'f', -1, 64)
+		return floatLit(rv.Float(), 64)
 	case reflect.String:
 		return strconv.Quote(rv.String())
 	case reflect.Interface:
@@ -278,4 +279,14 @@ func (d *Dumper) ValueLit(in any, optFns ...ValueLitOptFn) string {
 	default:
 		panic(fmt.Errorf("%s is an unsupported type", tpe.String()))
 	}
+}
+
+// floatLit keeps the plain decimal form for everyday values; from 1e21 on (where %v of package fmt
+// switches too) it uses the exponent form: the plain form of an integral float is an integer
+// constant, and the compiler rejects integer constants of more than 512 bits ("constant overflow").
+func floatLit(f float64, bitSize int) string {
+	if math.Abs(f) >= 1e21 {
+		return strconv.FormatFloat(f, 'g', -1, bitSize)
+	}
+	return strconv.FormatFloat(f, 'f', -1, bitSize)
 }
